@@ -9,7 +9,7 @@ import re
 import vlib
 from checks import simcommon as S
 
-FAMILIES = ["reuse", "resize"]
+FAMILIES = ["reuse", "resize", "race"]
 PER_FAMILY = (500, 8000)
 THEOREMS = ["C09_factory_meets_spec", "C09_returned_is_live_and_sized", "C09_previous_instance_iff", "C09_replacement_shuts_down_first",
             "C09_history", "C09_invalid_arguments_change_nothing", "C09_structure"]
